@@ -54,6 +54,12 @@ def d1(chk, prog, ks, ploidies):
             if not isinstance(out, Vec) or len(out.v) != len(classes):
                 tb.cell(False, dict(k=k, ploidy=P, problem="result does not have one slot per input row", got=repr(out)))
                 continue
+            if W.hazards:
+                # "the number of thresholds strictly below log2": the log2 value itself is what is compared; a transformed copy (2**x) collides with the
+                # transformed cut-off for the float values next to it, so the call at a boundary changes
+                tb.cell(False, dict(k=k, ploidy=P, problem="the threshold comparison is made on transformed values: " + W.hazards[0],
+                                    example="log2 = nextafter(0.2, inf) with the default thresholds: 2**log2 == 2**0.2 in double precision, called one level too low"))
+                continue
             for (c, j, nan), row, got in zip(classes, rows, out.v):
                 r = ref_exp_oracle(c, P, hap, True, None)[0]
                 want = thr_oracle(j, k, r, P, nan)
